@@ -39,7 +39,7 @@ fn gen(r: &mut Rng, _cfg: &RunCfg) -> Case {
         let mut o = gen_opts(r, DOM, &text, true);
         let pen = if r.coin() { Pen::DEFAULT } else { frag::exact_penalties(r, Scale::Small) };
         o.algo = Algo::Optimal(pen);
-        wrap_case("text", text, o)
+        wrap_case(if r.chance(1, 4) { "text_fill" } else { "text" }, text, o)
     }
 }
 
@@ -166,6 +166,8 @@ struct Parse<'a, 'l> {
     bodies: Vec<&'l str>,
     pen: Pen,
     memo: HashMap<(usize, usize), bool>,
+    /// per paragraph: the whole paragraph as one line, where that is admissible (see `whole_line_alternative`)
+    whole: Vec<Option<&'a str>>,
 }
 
 impl<'a, 'l> Parse<'a, 'l> {
@@ -233,6 +235,12 @@ impl<'a, 'l> Parse<'a, 'l> {
             return *r;
         }
         let mut res = false;
+        if let Some(w) = self.whole[p] {
+            if i < self.bodies.len() && self.bodies[i].trim_end_matches(' ') == w && self.go(i + 1, p + 1) {
+                self.memo.insert((i, p), true);
+                return true;
+            }
+        }
         'outer: for v in 0..self.paras[p].len() {
             for j in self.ends(i, p, v) {
                 if self.go(j, p + 1) {
@@ -262,7 +270,15 @@ fn check_text_reading(case: &Case, obs: &mut Obs, universal: bool) -> Verdict {
         _ => return Verdict::Skipped("not optimal-fit"),
     };
     let built = o.build();
-    let lines = if o.by_ref(text) { textwrap::wrap(text, &built) } else { textwrap::wrap(text, o.build()) };
+    let lines: Vec<std::borrow::Cow<str>> = if case.sub == "text_fill" {
+        // "wrap/fill ... produce": the same claim for fill's lines (fill has its own fast path)
+        obs.bump("text_fill_lines");
+        o.fill(text).split(o.le()).map(|l| std::borrow::Cow::Owned(l.to_string())).collect()
+    } else if o.by_ref(text) {
+        textwrap::wrap(text, &built)
+    } else {
+        textwrap::wrap(text, o.build())
+    };
     obs.calls += 1;
     if obs.want_sample {
         obs.out = Some(lines_json(&lines));
@@ -273,8 +289,10 @@ fn check_text_reading(case: &Case, obs: &mut Obs, universal: bool) -> Verdict {
     };
     let splitter = o.split_build();
     let mut paras = Vec::new();
+    let mut whole = Vec::new();
     for (k, para) in split_paragraphs(text, o.le(), universal).into_iter().enumerate() {
         let a = para_fragments(para, o, &splitter);
+        whole.push(whole_line_alternative(&a, o, k == 0));
         if !a.lossless {
             return Verdict::Skipped("pipeline fragments are not lossless (reported under C11/C12)");
         }
@@ -313,7 +331,7 @@ fn check_text_reading(case: &Case, obs: &mut Obs, universal: bool) -> Verdict {
         paras.push(variants);
     }
     let nparas = paras.len();
-    let mut p = Parse { paras, bodies, pen, memo: HashMap::new() };
+    let mut p = Parse { paras, bodies, pen, memo: HashMap::new(), whole };
     if !p.go(0, 0) {
         return Verdict::Violated(format!(
             "no reading of the returned lines {:?} as per-paragraph arrangements of the paragraph fragments has minimum cost (penalties {:?})",
@@ -450,7 +468,7 @@ pub fn prop() -> Prop {
         panic_is_violation: false,
         budget: (1500000, 48000000),
         extra: Some(extra),
-        required: &["long_sequences", "long_paragraphs", "frag_multi_line", "frag_beats_first_fit_arrangement", "frag_two_line_widths", "frag_with_penalty_widths", "crosschecked_by_line_count_dp", "crosschecked_by_brute_force", "text_wrapped_paragraph", "text_custom_penalties", "text_different_indent_widths"],
+        required: &["text_fill_lines", "long_sequences", "long_paragraphs", "frag_multi_line", "frag_beats_first_fit_arrangement", "frag_two_line_widths", "frag_with_penalty_widths", "crosschecked_by_line_count_dp", "crosschecked_by_brute_force", "text_wrapped_paragraph", "text_custom_penalties", "text_different_indent_widths"],
         known: None,
     }
 }
